@@ -342,3 +342,43 @@ func (p *Program) ResultOrigin(h *ssa.Function, k int) (*ssa.Function, int) {
 	}
 	return h, k
 }
+
+// resolveReceiverKinds: a method the rules know with a pointer receiver may have
+// been given a value receiver (or the reverse); it is registered under the
+// known form too, so that the change of receiver kind is not a missing anchor.
+func (p *Program) resolveReceiverKinds() {
+	for _, f := range p.Funcs {
+		recv := f.Signature.Recv()
+		if recv == nil || f.Parent() != nil {
+			continue
+		}
+		t := recv.Type()
+		isPtr := false
+		if pt, ok := t.(*types.Pointer); ok {
+			t, isPtr = pt.Elem(), true
+		}
+		n, ok := t.(*types.Named)
+		if !ok {
+			continue
+		}
+		prefix := ""
+		if f.Pkg != nil && f.Pkg.Pkg.Path() == FieldPath {
+			prefix = "field."
+		}
+		other := fmt.Sprintf("%s(*%s).%s", prefix, n.Obj().Name(), f.Name())
+		if isPtr {
+			other = fmt.Sprintf("%s(%s).%s", prefix, n.Obj().Name(), f.Name())
+		}
+		if p.ByName[other] != nil {
+			continue
+		}
+		if _, known := reference[other]; !known {
+			continue
+		}
+		old := ShortName(f)
+		delete(p.ByName, old)
+		aliasOf[f] = other
+		p.ByName[other] = f
+		p.Notes = append(p.Notes, fmt.Sprintf("method %s is known to the rules as %s (receiver kind changed)", old, other))
+	}
+}
